@@ -45,6 +45,34 @@ pub fn apply_bin(l: &Z, r: RhsRef<'_>, op: BinOp, form: Form) -> Result<Z, Strin
     })
 }
 
+/// `&a op &a` with aliased references; `Err(panic message)` if it panicked.
+pub fn apply_self(l: &Z, op: BinOp) -> Result<Z, String> {
+    catch(|| match op {
+        BinOp::Add | BinOp::Sub | BinOp::Mul => tab_arith::apply_self(l, op),
+        BinOp::Div | BinOp::Rem => tab_div::apply_self(l, op),
+        BinOp::And | BinOp::Or | BinOp::Xor => tab_logic::apply_self(l, op),
+    })
+}
+
+/// When the right operand has the same type and bits as the left one, also apply the operator
+/// to the SAME object on both sides (`&a op &a`): implementations may special-case aliasing.
+pub fn check_aliased(za: &Z, a: &Operand, b: &Rhs, op: BinOp, what: &str, st: &mut Stats) -> CheckResult {
+    let Rhs::V(o) = b else { return Ok(()) };
+    if o.ty != a.ty || o.bits != a.bits {
+        return Ok(());
+    }
+    st.class("aliased operands (&a op &a)");
+    match (model_bin(&a.bits, &a.bits, op), apply_self(za, op)) {
+        (None, Ok(_)) => Err(Violation { sig: format!("{}/aliased/zero-divisor-returned", what), msg: format!("&a {} &a with a = {} (zero) returned instead of panicking", op.sym(), a.describe()) }),
+        (None, Err(_)) => Ok(()),
+        (Some(_), Err(p)) => Err(Violation { sig: format!("{}/aliased/panic", what), msg: format!("&a {} &a with a = {} panicked: {}", op.sym(), a.describe(), p) }),
+        (Some(e), Ok(r)) => battery_z(&r, &e, Strength::Light, &format!("{}/aliased", what)).map_err(|mut v| {
+            v.msg = format!("&a {} &a (both operands the same object) with a = {}: {}", op.sym(), a.describe(), v.msg);
+            v
+        }),
+    }
+}
+
 /// Reference semantics of the eight binary operators: result has a's length; b is zero-extended
 /// (arithmetic: full value of b; logic: b cut at n). `None` = division by zero (must panic).
 pub fn model_bin(a: &Bits, b: &Bits, op: BinOp) -> Option<Bits> {
